@@ -1,7 +1,7 @@
 import CprocVerif.Lemmas.InitRefSim6
 
 /-!
-# `parseinit` refines `InitRef.ref` (objects of known size, no designators)
+# `parseinit` refines `InitRef.ref` (objects of known size, no union member switch)
 -/
 
 namespace CprocVerif.InitSim
@@ -32,7 +32,7 @@ theorem ref_false {t : Ty} {i : Ini} {r : Result} (h : ref t false i = .ok r) :
     cases h
     exact ⟨rst, hi, rfl, rfl, rfl⟩
 
-theorem st0_plain (t : Ty) : Plain (st0 t) := ⟨rfl, rfl⟩
+theorem st0_plain (t : Ty) : Flat (st0 t) (st0 t).sub := ⟨rfl, rfl⟩
 theorem st0_curOK (t : Ty) : CurOK (st0 t) := by
   unfold CurOK
   show ∀ j, j < 0 → _
@@ -47,7 +47,7 @@ theorem preStep_nocur {st : St} (h : st.cur = none) (ds : List Desig) : preStep 
 
 /-- **Refinement, core form.**  Image equality cell by cell, and the size. -/
 theorem refines_core {t : Ty} {i : Ini} {st : St} {r : Result} (hm : parseinit t false i = .ok st)
-    (hr : ref t false i = .ok r) (hsw : r.nswitch = 0) (hwf : tyWf t = true) (hok : okI i = true)
+    (hr : ref t false i = .ok r) (hsw : r.nswitch = 0) (hwf : tyWf t = true)
     (htop : topOK t i = true) : st.top = r.size ∧ ImgEq (st.log.map evWrite) r.writes := by
   obtain ⟨rst, hi, hsz, hwr, hns⟩ := ref_false hr
   have hm' := parseinit_false hm
@@ -62,7 +62,6 @@ theorem refines_core {t : Ty} {i : Ini} {st : St} {r : Result} (hm : parseinit t
   | succ f =>
   cases i with
   | list its =>
-    have hois := okI_list hok
     rw [initOne.eq_2] at hi
     cases hbr : braced f { ty := t, unb := false } its {} with
     | error er => rw [hbr] at hi; cases hi
@@ -107,7 +106,7 @@ theorem refines_core {t : Ty} {i : Ini} {st : St} {r : Result} (hm : parseinit t
         rw [if_neg (by intro h; cases h)]
       rw [hent] at hb
       simp only [] at hb
-      obtain ⟨r1', r2, r3, r4, r5, r6⟩ := (pAll f).2.2.1 _ _ _ _ hbr hn0 hw hois (by intro h; cases h)
+      obtain ⟨r1', r2, r3, r5, r6⟩ := (pAll f).2.2.1 _ _ _ _ hbr hn0 hw (by intro h; cases h)
         (st0 t) st (fun c hc => by cases hc) (st0_plain t) (st0_curOK t) rfl (st0_sp t) hz hb
       exact ⟨r2.top, r1'⟩
   | expr e =>
@@ -136,7 +135,7 @@ theorem refines_core {t : Ty} {i : Ini} {st : St} {r : Result} (hm : parseinit t
         simp only [Bool.false_eq_true, if_false] at hi
         cases hi
         have hh : hit (st0 t) (.str w scls cs) = .ok (.add (.str w cs), st0 t) := by
-          rw [hit_str hty' ((st0_plain t).tinc _), if_neg hbad]
+          rw [hit_str hty' (st0_plain t).tinc, if_neg hbad]
         obtain ⟨h1, h2⟩ := leaf_add (rest := .nil) (sz := n * es) hh (st0_sp t) (st0_plain t) (st0_curOK t)
           (by rw [hty']; first | rfl | skip) hle0 hb
         exact ⟨h1.frame.top, h2⟩
